@@ -1,10 +1,10 @@
 package rules
 
 import (
-	"go/constant"
-	"go/types"
 	"go/ast"
+	"go/constant"
 	"go/token"
+	"go/types"
 	"sort"
 	"strings"
 
